@@ -238,6 +238,8 @@ def refusal_cases(ctx):
 
 
 def check(ctx):
+    from harness import formulas
+    formulas.check_formulas(ctx, ['Mean._accumulate_other', 'Variance._accumulate_other'])
     rng = ctx.rng
     cases = []
     fixed = [
